@@ -25,7 +25,7 @@ def run(ctx):
     proved = stages.lean_stage(ctx, "PsycheModel.Props.C09")
     stages.cxx_stage(ctx, "ndebug")
     g = AmbigGen(random.Random(ctx.seed))
-    cases = g.all_cases()
+    cases = g.all_cases(every=4 if ctx.quick else 1)
     # a sample through gcc: the ground truth presupposes valid programs
     ngcc = nbad = 0
     for c in cases[:: max(1, len(cases) // (80 if ctx.quick else 1531))]:
@@ -84,14 +84,10 @@ def run(ctx):
         a, b = c["span"]
         kinds = [k for k, f, l in nodes if f is not None and f >= a and l <= b]
         if c["want"] not in kinds:
-            if c["how"] == "typedef_shadowed_by_param":
-                known["param-shadows-typedef"] += 1
-                ctx.report("param-shadows-typedef", "a function parameter that hides a file-scope typedef name is catalogued at file level, not in the body: in 'typedef int T; int f(int T) { … (T) - x … }' the name still counts as a type", {})
-            else:
-                viol("reading", "read as %s; a C compiler reads %s" % ([k for k in kinds[:3]], c["want"]))
+            viol("reading", "read as %s; a C compiler reads %s" % ([k for k in kinds[:3]], c["want"]))
     ctx.cov.update({
         "evaluations": len(lines), "traces_validated_against_impl": len(lines), "distinct_nontrivial": len({(c["form"], c["ctx"], c["how"]) for c in cases}), "exhaustive": True,
-        "rule": "every ambiguity form ((T) - x, (T) + x, (T) * x, (T) & x, sizeof(T), _Alignof(T), T * x;, T (x);, T ((x));) x every context (26 expression contexts: expression statements, initialisers, call arguments, subscripts, conditions, for clauses, return, switch, case labels, conditional/comma/binary/unary operands, array initialisers, VLA sizes, labelled and nested statements, static assertions; 9 statement contexts) x 10 ways of declaring the name (file/block typedef, struct typedef, file/block variable, parameter, typedef shadowed by variable/parameter, variable shadowed by typedef, enumerator) x shadowing redeclaration of the declared variable x the 4 disambiguation modes (complete cross product of the generator's tables)",
+        "rule": "every ambiguity form ((T) - x, (T) + x, (T) * x, (T) & x, (T) && x, sizeof(T), _Alignof(T), T * x;, T (x);, T ((x));) x every context (26 expression contexts: expression statements, initialisers, call arguments, subscripts, conditions, for clauses, return, switch, case labels, conditional/comma/binary/unary operands, array initialisers, VLA sizes, labelled and nested statements, static assertions; 9 statement contexts) x 10 ways of declaring the name (file/block typedef, struct typedef, file/block variable, parameter, typedef shadowed by variable/parameter, variable shadowed by typedef, enumerator) x the same spellings in another name space or in a scope that has ended (struct member before/after, tag, member access, label, prototype parameter, another function's parameter / local variable / local typedef; quick: a quarter of these variants) x shadowing redeclaration of the declared variable x the 4 disambiguation modes (complete cross product of the generator's tables)",
         "samples": [cases[0]["text"], cases[len(cases) // 2]["text"], cases[-1]["text"]],
     })
     ctx.notes.update({"cases": len(cases), "violations": nviol, "tally": dict(tally), "known_hits": dict(known), "gcc_sample": {"checked": ngcc, "rejected": nbad}})
